@@ -144,6 +144,7 @@ type world struct {
 	stepNo     int
 	submitStep map[string]int // step at which a request was submitted
 	lastResp   map[string]M   // the implementation's response per request id (canonical form)
+	lastHandoff map[string]string // C19: outcome of the most recent hand-off per task id (success | failure | error)
 	finishedAt map[string]int // C07: step at which a task was first seen completed / timed out in the database
 	doneStep   map[string]int // C01: step at which a promise was first observed completed
 }
@@ -540,7 +541,7 @@ func newWorld(path string, cfg Cfg, bg bool) (*world, error) {
 		return nil, err
 	}
 	boot.Close()
-	w := &world{cfg: cfg, bg: bg, path: path, seen: map[string]M{}, submitAt: map[string]int64{}, leases: map[string]*lease{}, lockLeases: map[string]*lease{}, claimed: map[string]bool{}, submitStep: map[string]int{}, finishedAt: map[string]int{}, lastResp: map[string]M{}, doneStep: map[string]int{}, respN: map[string]int{}, lost: map[string]bool{}}
+	w := &world{cfg: cfg, bg: bg, path: path, seen: map[string]M{}, submitAt: map[string]int64{}, leases: map[string]*lease{}, lockLeases: map[string]*lease{}, claimed: map[string]bool{}, submitStep: map[string]int{}, finishedAt: map[string]int{}, lastResp: map[string]M{}, lastHandoff: map[string]string{}, doneStep: map[string]int{}, respN: map[string]int{}, lost: map[string]bool{}}
 	w.rdb, err = sql.Open("sqlite3", path)
 	if err != nil {
 		return nil, err
@@ -928,6 +929,7 @@ func (r *runner) apply(w *world, st Step) (M, bool) {
 					w.lost[tid] = true
 				}
 			}
+			w.lastHandoff = map[string]string{}
 			if err := w.boot(); err != nil {
 				return M{"harness": err.Error()}, false
 			}
@@ -1135,6 +1137,35 @@ func (r *runner) apply(w *world, st Step) (M, bool) {
 					return M{"what": "property monitor failed on the implementation", "property": "C07", "diff": what, "property_violation": true, "step": st}, false
 				}
 			}
+			if monitors["C19"] || monitors["C08"] {
+				// "an undeliverable address results in a failed, retried hand-off": a task moves from init to enqueued only
+				// after a hand-off the transport accepted
+				old := map[string]map[string]any{}
+				if ps, _ := w.prev["tasks"].([]any); ps != nil {
+					for _, x := range ps {
+						if row, _ := x.(map[string]any); row != nil {
+							old[fmt.Sprint(row["id"])] = row
+						}
+					}
+				}
+				ts, _ := cur["tasks"].([]any)
+				for _, x := range ts {
+					row, _ := x.(map[string]any)
+					if row == nil || jnum(row["state"]) != 2 {
+						continue
+					}
+					id := fmt.Sprint(row["id"])
+					if o := old[id]; o != nil && jnum(o["state"]) == 1 {
+						if oc, ok := w.lastHandoff[id]; ok && oc != "success" {
+							pid := "C19"
+							if !monitors["C19"] {
+								pid = "C08"
+							}
+							return M{"what": "property monitor failed on the implementation", "property": pid, "diff": fmt.Sprintf("task %q was recorded as handed over (init -> enqueued, attempt %d) although its last hand-off ended in %s", id, jnum(row["attempt"]), oc), "property_violation": true, "step": st}, false
+						}
+					}
+				}
+			}
 			if ts, _ := cur["tasks"].([]any); monitors["C07"] {
 				for _, x := range ts {
 					if row, _ := x.(map[string]any); row != nil && (jnum(row["state"]) == 8 || jnum(row["state"]) == 16) {
@@ -1217,6 +1248,7 @@ func (r *runner) apply(w *world, st Step) (M, bool) {
 		}
 		r.counts["send_"+st.Outcome]++
 		if h.sqe.Submission.Kind == t_aio.Sender && h.sqe.Submission.Sender != nil && h.sqe.Submission.Sender.Task != nil && h.sqe.Submission.Sender.Task.Mesg != nil {
+			w.lastHandoff[h.sqe.Submission.Sender.Task.Id] = st.Outcome
 			r.counts["send_"+string(h.sqe.Submission.Sender.Task.Mesg.Type)+"_"+st.Outcome]++
 		}
 		w.aio.EnqueueCQE(cqe)
